@@ -249,6 +249,6 @@ def main():
     chk.rule = chk.rule + " | 144 probe points (1/K in {1/2,1,2}) x (dz = 2^-1..2^-6) x 8 Gaussian-rational T; each is one case; every coefficient a, b, c, d of the real one-layer step is compared with the specification's rational value"
     for e in r.emitted[:2]:
         chk.sample(e)
-    chk.assumptions += ["only the local expansion order of the step is decided; the transcendental closed form of the analytic branch and the measured eightfold error reduction are not (DESIGN.md, C05)",
+    chk.assumptions += ["the local expansion order of the step is decided by TLC; the closed form of the analytic branch is compared with a harness-side transcription at 1e-9; the measured eightfold error reduction is not decided (DESIGN.md, C05)",
                         "ivp_solver is called directly (module-level function of bldfm.solver)"]
     return chk.finish()
